@@ -219,6 +219,19 @@ where
     }
     // refusal of mismatched shares leaves the accumulator unchanged
     if let Some((fo, fa, what)) = foreign {
+        // aggregate shares that agree with each other but not with the parameter are refused at
+        // unshard too (one per aggregator)
+        match guard(|| vdaf.unshard(ap, vec![fa.clone(); reference_shares.len()], n)) {
+            Ok(Err(_)) => {}
+            Ok(Ok(r)) => {
+                obs.fail("unshard-accepts-mismatched-shares", format!("unshard accepted {what} aggregate shares that do not match the aggregation parameter and returned {}", show(&r)));
+                return;
+            }
+            Err(pn) => {
+                obs.fail(format!("unshard-mismatched-{}", panic_sig(&pn)), format!("unshard of {what} aggregate shares panicked: {pn}"));
+                return;
+            }
+        }
         let acc = reference_shares[0].clone();
         let before = enc(&acc);
         let mut a1 = acc.clone();
@@ -286,7 +299,7 @@ impl Check for C13 {
     type Case = Case;
     const ID: &'static str = "C13";
     fn rule(&self) -> String {
-        "proptest-generated: VDAF ∈ {Prio3 instances, Poplar1 inner/leaf parameter, Prio2}; 1..30 output shares per aggregator obtained through the real decoder from generated canonical elements (random with 0 / 1 / p−1 edge values mixed in); a generated set partition into 1..6 batches (empty batches allowed), a generated order inside each batch, a generated binary merge tree with either operand order. Oracle: the batched/merged aggregate share equals, byte for byte, the single left-to-right pass; aggregate() = init + accumulate; aggregate_init is a two-sided identity; merge commutes; unshard agrees; a share of another length or of the other Poplar1 level kind is refused and leaves the accumulator's encoding unchanged. Non-trivial = ≥ 2 batches with a merge tree that is not the left comb, or a refusal case; distinct by case hash".into()
+        "proptest-generated: VDAF ∈ {Prio3 instances, Poplar1 inner/leaf parameter, Prio2}; 1..30 output shares per aggregator obtained through the real decoder from generated canonical elements (random with 0 / 1 / p−1 edge values mixed in); a generated set partition into 1..6 batches (empty batches allowed), a generated order inside each batch, a generated binary merge tree with either operand order. Oracle: the batched/merged aggregate share equals, byte for byte, the single left-to-right pass; aggregate() = init + accumulate; aggregate_init is a two-sided identity; merge commutes; unshard agrees; a share of another length or of the other Poplar1 level kind is refused by accumulate, merge and unshard and leaves the accumulator's encoding unchanged. Non-trivial = ≥ 2 batches with a merge tree that is not the left comb, or a refusal case; distinct by case hash".into()
     }
     fn strategy(&self, _tier: Tier) -> BoxedStrategy<Case> {
         case_strategy()
